@@ -441,6 +441,15 @@ def routes(shape):
                 var_side("x"), var_side("tmp"), False, ("copy",), "param-local-x"))
     res.append(("param-then-local", "", shape.php_setup("$a"), shape.model_setup("a") + ["SCopy \"p\" \"a\"", "SCopy \"tmp\" \"p\""],
                 var_side("a"), var_side("tmp"), False, ("copy",), "param-local"))
+    # the by-value parameter of a CALLBACK a built-in invokes on the elements (seeded C06-15: array_map put the element
+    # straight into the closure's parameter slot)
+    # (call_user_func hands its whole argument list to the callback's first parameter in this interpreter and
+    # call_user_func_array does not exist: no route through them)
+    for wname in ("callback-array_map", "callback-array_filter", "callback-array_map-fn-name", "callback-array_reduce"):
+        res.append((wname, "", shape.php_setup("$a") + " $rows = [5, 0]; $rows[1] = $a;",
+                    shape.model_setup("a") + ["SLit \"rows\" (LList [LInt 5; LInt 0])", "SElemStore \"rows\" (KI 1) \"a\"",
+                                              "SElemRead \"p\" \"rows\" (KI 1)"],
+                    elem_side("rows", 1), var_side("p"), False, ("copy",), wname))
     # a KEYED literal whose entry is the variable (seeded C06-10: the literal stored the evaluated value as is)
     res.append(("in-keyed-literal", "", shape.php_setup("$a") + " $w = ['z' => 0, 'k' => $a];",
                 shape.model_setup("a") + ["SLit \"w\" (LAssoc [(\"z\", LInt 0)])", "SElemStore \"w\" (KS \"k\") \"a\""],
@@ -513,6 +522,18 @@ def build_case(shape, route, mut, side):
     if wrap == "foreach-body":
         src = ("<?php\n" + SNAP + decls + pre_php +
                "\ns(\"a0\", %s);\nforeach ($rows as $rk => $row) { if ($rk === 1) { s(\"b0\", $row); %s s(\"b1\", $row); } }\ns(\"a1\", %s);\n" % (A.php, mut_php, A.php))
+    elif wrap is not None and wrap.startswith("callback-"):
+        body = "if (is_array($p)) { s(\"b0\", $p); %s s(\"b1\", $p); }" % mut_php
+        decl, call = {
+            "callback-array_map": ("", "array_map(function($p) { BODY return 0; }, $rows)"),
+            "callback-array_filter": ("", "array_filter($rows, function($p) { BODY return true; })"),
+            "callback-array_map-fn-name": ("function cbNamed($p) { BODY return 0; }", "array_map('cbNamed', $rows)"),
+            "callback-array_reduce": ("", "array_reduce($rows, function($carry, $p) { BODY return 0; }, 0)"),
+            "callback-call_user_func": ("", "call_user_func(function($p) { BODY return 0; }, $rows[1])"),
+            "callback-call_user_func_array": ("", "call_user_func_array(function($q, $p) { BODY return 0; }, $rows)"),
+        }[wrap]
+        src = ("<?php\n" + SNAP + decls + decl.replace("BODY", body) + "\n" + pre_php +
+               "\ns(\"a0\", %s); %s; s(\"a1\", %s);\n" % (A.php, call.replace("BODY", body), A.php))
     elif wrap is not None:
         body = "s(\"b0\", %s); %s s(\"b1\", %s);" % (B.php, mut_php, B.php)
         decl, call = {
